@@ -61,6 +61,14 @@ def check(ctx):
     envs, run = core.core_run(ctx.tier)
 
     def t3_tokens(sid, f, x, a):
+        # same parsed tree on both sides but different tokens: the Pair API does not enumerate the tokens of the tree it was given
+        # (the model's Pairs over that very tree, Model/Tokens.v, says which ones it holds)
+        mline = f.get("_model")
+        if mline:
+            mf = rtcat.split_line(mline)[5]
+            if mf.get("P") == f.get("P") and f["P"].startswith("ok@") and mf.get("TK") != f.get("TK"):
+                return ("children() / tokens of the parsed node are %s, but the tree it holds (%s) has the tokens %s"
+                        % (str(f.get("TK"))[:200], f["P"][:120], str(mf.get("TK"))[:200]))
         return None
     core.scan(ctx, envs, run, ("misc", "uni"), t3_tokens, lambda sid, f, a: f.get("TK", "-") not in ("-", ""), "token tree off its spec")
     return ctx.finish(level="proof", trusted_base=tb.BASE + [
